@@ -223,6 +223,10 @@ def rand_query(rng, bad=False):
         q['src'] = ['select', rand_where(rng), rand_oby(rng, bad), rng.random() < 0.15, rng.random() < 0.15]
     q['calls'] = rand_calls(rng, bad)
     q['fin'] = rand_fin(rng)
+    if q['fin'][0] in ('agg', 'count') and q['src'][0] == 'select' and rng.random() < 0.6:
+        # a wide filter, so that aggregates mostly range over several rows
+        q['src'][1] = rng.choice([['true'], ['true'], ['ne', 'a', None], ['ne', 'b', 1], ['or', ['eq', 'a', 1], ['eq', 'a', None]],
+                                  ['not', ['eq', 'b', 2]], ['ne', 'id', 1]])
     if bad and q['fin'][0] in ('count', 'agg') and rng.random() < 0.6:
         a = rng.choice([None, 0, 0, 1, 2])
         b = rng.choice([None, 0, 0, 1, 2, 5])
@@ -445,8 +449,8 @@ def generate(rng, tier):
     out = []
     if tier == 'quick':
         out += enum_cases([0, 1, 4])
-        out += [rand_history(rng) for _ in range(700)]
-        out += [rand_history(rng, bad=True) for _ in range(150)]
+        out += [rand_history(rng) for _ in range(1400)]
+        out += [rand_history(rng, bad=True) for _ in range(300)]
     else:
         out += enum_cases([0, 1, 2, 3, 4])
         out += [rand_history(rng) for _ in range(12000)]
@@ -607,6 +611,8 @@ def parse_clause(text):
         return []
     items = []
     for part in text.split(' AND '):
+        if part.count(' ') < 2 or ' OR ' in part:
+            return [['?', '?', None]]
         name, word, val = part.split(' ', 2)
         c = DB2COL.get(name, '?')
         if val == 'NULL':
@@ -614,7 +620,10 @@ def parse_clause(text):
         elif val.startswith("'"):
             v = tok_of('s', val[1:-1])
         else:
-            v = int(val)
+            try:
+                v = int(val)
+            except ValueError:
+                return [['?', '?', None]]
         items.append([c, word, v])
     return items
 
@@ -1207,16 +1216,23 @@ def tied(rows, keys):
 
 
 def nontrivial(case, obs):
+    """the batch met an input-space corner: two result rows tied or NULL under a requested key, an aggregate over an
+    empty / all-NULL set of a non-empty table, a NULL keyword that matched, or a refusal other than plain not-found"""
     for qs, sn in zip(batches(case), obs['snaps']):
+        byid = {r[0]: r for r in sn['rows']}
         for q, o in zip(qs, sn['res']):
             r = o['res']
-            if r[0] in ('notfound', 'integrity', 'assert', 'typeerror', 'dberror', 'default') or r[:2] == ['agg', 'null']:
+            if r[0] in ('integrity', 'assert', 'typeerror', 'dberror'):
+                return True
+            if r[:2] == ['agg', 'null'] and sn['rows']:
                 return True
             if q['k'] == 'sel':
-                if q['src'][0] == 'selectBy' and any(v is None for _, v in q['src'][1]):
+                if q['src'][0] == 'selectBy' and any(v is None for _, v in q['src'][1]) and r[0] in ('ids', 'found') \
+                        and (r[0] == 'found' or r[1]):
                     return True
                 req = requested(q)
-                if q['fin'][0] == 'list' and req[0] == 'keys' and req[1] and len(sn['rows']) > 1 and tied(sn['rows'], req[1]):
+                if r[0] == 'ids' and req[0] == 'keys' and req[1] and len(r[1]) > 1 \
+                        and tied([byid[i] for i in r[1] if i in byid], req[1]):
                     return True
     return False
 
